@@ -396,6 +396,13 @@ pub fn run(rep: &mut Report, thorough: bool) {
                 _ => FdSpec::DevNull,
             });
         }
+        // two (three) descriptors with the SAME link text but different files and modes: a file is
+        // created, opened and unlinked, then the same path again
+        if nfds > 0 {
+            for _ in 0..(2 + ti % 2) {
+                b.spec.fds.push(FdSpec::DeletedFile { path: format!("{dir}/same name twice") });
+            }
+        }
         // argv / environment
         let mut args: Vec<Vec<u8>> = Vec::new();
         for _ in 0..rng.below(6) {
